@@ -22,7 +22,7 @@ def gen_cases(ck, n, lo, hi):
     progs = []
     for k in range(n):
         safe = ck.rng.random() < 0.85
-        p = exprlib.gen_program(ck.rng, f"e{k}", ck.rng.randint(lo, hi), safe=safe)
+        p = exprlib.gen_program(ck.rng, f"e{k}", ck.rng.randint(lo, hi), safe=safe, remap_p=0.10, apply_p=0.08, var_p=0.10)
         root = p.root
         p.safe = safe
         p.q = {"deck": p.ncmd + 1}
